@@ -591,6 +591,7 @@ def train_sac(
             episode_idx += 1
 
             if total_episodes is not None and episode_idx >= total_episodes:
+                step += 1  # count the step that finished the last episode
                 break
 
             if logger is not None:
